@@ -61,6 +61,8 @@ pub struct Stats {
     pub samples: Vec<Value>,
     pub known: BTreeMap<String, u64>,
     pub counters: BTreeMap<String, u64>,
+    /// first executed case, used as a sample when no non-trivial case was seen
+    pub fallback: Option<Value>,
     frozen: bool,
 }
 
@@ -101,6 +103,9 @@ impl Stats {
             if self.samples.len() < 6 {
                 self.samples.push(s.clone());
             }
+        }
+        if self.fallback.is_none() {
+            self.fallback = o.fallback.clone();
         }
     }
 }
@@ -251,6 +256,9 @@ where
                                 let mut s = st.borrow_mut();
                                 if !s.frozen {
                                     s.evaluations += 1;
+                                    if s.fallback.is_none() {
+                                        s.fallback = serde_json::to_value(&case).ok();
+                                    }
                                 }
                                 match this.run_case(&case, &mut s) {
                                     Ok(Outcome::Ok) => Ok(()),
@@ -354,6 +362,9 @@ where
     fn run(&self, _ctx: &Ctx, stats: &mut Stats) -> Option<Failure> {
         for c in (self.items)() {
             stats.evaluations += 1;
+            if stats.fallback.is_none() {
+                stats.fallback = serde_json::to_value(&c).ok();
+            }
             let r = match catch(|| (self.check)(&c, stats)) {
                 Ok(r) => r,
                 Err(p) => Err(format!("panic: {p}")),
@@ -402,11 +413,17 @@ pub fn evidence_json(
     violations: u64,
     extra: Option<Value>,
 ) -> Value {
+    let mut samples = stats.samples.clone();
+    if samples.is_empty() {
+        if let Some(f) = &stats.fallback {
+            samples.push(json!({"trivial_case": f}));
+        }
+    }
     let mut coverage = json!({
         "evaluations": stats.evaluations,
         "distinct_nontrivial": stats.nontrivial.len(),
         "rule": spec.rule,
-        "samples": stats.samples,
+        "samples": samples,
         "labels": stats.labels,
         "counters": stats.counters,
         "parts": per_part,
